@@ -4,6 +4,7 @@ pub mod ctx;
 pub mod custom;
 pub mod drive;
 pub mod expect;
+pub mod fuzz;
 pub mod gen;
 pub mod json;
 pub mod model;
